@@ -1,8 +1,8 @@
 (* Extraction of the bytecode verifier (ExtrOcamlBasic only). *)
 Require Extraction.
 Require Import ExtrOcamlBasic.
-From Quiver Require Import vm.Wf.
+From Quiver Require Import vm.Wf vm.Tables.
 Extraction Language OCaml.
 Extraction "extracted/wf_model.ml"
   verify_program verify_function infer_function infer_function_at check_function check_function_at
-  check_pc check_program max_height max_locals transfer.
+  check_pc check_program max_height max_locals transfer tables_ok.
